@@ -79,8 +79,10 @@ class CCodeMapper(SimplifyingSortingStringifyMapper):
         super().__init__(reverse)
         self.cse_prefix = cse_prefix
 
-        self.cse_to_name = {cse: name for name, cse in cse_name_list}
-        self.cse_names = {cse for name, cse in cse_name_list}
+        # cse_name_list holds (name, C source text) pairs. The expressions
+        # they stand for are only known to copies, see copy().
+        self.cse_to_name = {}
+        self.cse_names = {name for name, cse_str in cse_name_list}
         self.cse_name_list = cse_name_list[:]
 
         self.complex_constant_base_type = complex_constant_base_type
@@ -88,9 +90,14 @@ class CCodeMapper(SimplifyingSortingStringifyMapper):
     def copy(self, cse_name_list=None):
         if cse_name_list is None:
             cse_name_list = self.cse_name_list
-        return CCodeMapper(self.reverse,
+        result = CCodeMapper(self.reverse,
                 self.cse_prefix, self.complex_constant_base_type,
                 cse_name_list)
+        # subexpressions already assigned to a name that the copy still has
+        result.cse_to_name = {
+                cse: name for cse, name in self.cse_to_name.items()
+                if name in result.cse_names}
+        return result
 
     def copy_with_mapped_cses(self, cses_and_values):
         return self.copy(self.cse_name_list + cses_and_values)
@@ -201,7 +208,7 @@ class CCodeMapper(SimplifyingSortingStringifyMapper):
             self.cse_to_name[expr.child] = cse_name
             self.cse_names.add(cse_name)
 
-            assert len(self.cse_names) == len(self.cse_to_name)
+            assert len(self.cse_names) >= len(self.cse_to_name)
 
         return cse_name
 
